@@ -12,6 +12,10 @@ CHECKS = {
    technique='inductive SMT obligations: the real _intbounds_impl executed on symbolic child ranges under a path explorer, node semantics from its real generated script, z3 proves containment for unbounded integers; shape/dtype/arguments via symbolic runs with the generated evalf assertions',
    text='Per node class with an integer-range rule (discovered by introspection) z3 proves, for unbounded integers and every finite/infinite pattern of child ranges, that the evaluated node stays inside the inferred range - an inductive step that covers compositions of any depth.  Shape, dtype, ndim and announced arguments are checked by running family programs symbolically with the generated run-time assertions enabled and exactly the announced arguments supplied.',
    note='Trusted: z3, the SArray model of NumPy.  Axis lengths are small constants; PolyDegree/PolyNCoeffs are enumerated over child ranges within 0..29 (finite enumeration, labelled); TransformIndex and ArrayFromTuple ranges are declined.  Mathematical integers (no int64 wrap).'),
+ 'C15': dict(level='other', design='4/C15',
+   technique='symbolic execution of assemble_csr on z3 integer arrays (all paths) with SMT validity of accepted<=>well-formed; NumpyMatrix operations on z3 terms vs a dense specification, per-element SMT equivalence',
+   text='Validation is decided for ALL integer row-pointer/column-index arrays of lengths nnz<=4, nrows<=3 (ncols in {1,2,3}): every execution path of assemble_csr is accepted only if well-formed and rejected only if ill-formed.  Every NumpyMatrix operation (export dense/csr/coo, @, T, neg, scale, div, +, -, diagonal, rowsupp, submatrix, pickle) equals the dense model for all real/complex values on every enumerated sparsity pattern up to 3x3 including 0xN/Nx0.',
+   note='NumPy backend only (SciPy/MKL are not installed and their C code is not encodable).  Patterns/shapes are enumerated, values and index arrays are solver variables.  Trusted: z3, SArray model.'),
 }
 
 NOT_APPLICABLE = {
